@@ -32,6 +32,21 @@ def main():
     F = hir.Facts(facts, meta)
     run = report.Run(prop, a.tier, seed)
     run.t0 = t_start
+    # watchdog: an abstract execution that diverges outside the per-call budgets (a sympy normalisation on an exploding expression, a model loop on
+    # a mutated tree) must fail the check closed instead of hanging the caller for hours.  The limits are ~20x the slowest check on the pinned tree.
+    import threading
+    limit = int(os.environ.get("BSA_WATCHDOG_S", "0") or 0) or (3600 if a.tier == "quick" else 6 * 3600)
+
+    def expired():
+        try:
+            run.broken("internal", "-", "watchdog", "-", "the check did not finish within %d s (diverging abstract execution): fails closed" % limit)
+            run.finish(getattr(mod, "LEVEL", "other"), "check failed closed: watchdog after %d s" % limit, meta, None)
+        finally:
+            sys.stdout.flush()
+            os._exit(1)
+    wd = threading.Timer(limit, expired)
+    wd.daemon = True
+    wd.start()
     if a.replay:
         print("replaying %s: re-running all rules of %s on the current tree; findings named in the report:" % (a.replay, prop))
         try:
